@@ -26,8 +26,8 @@ SERVES = {
                   "State plain / with bundle update+merge / over WrapDatabaseRef / over Box<dyn> / over CacheDB, "
                   "EmptyDB, InMemoryDB, State<EmptyDB>) and the answer compared (spec->impl conformance)",
         level="TLC enumerates every state of the specification reachable within MaxHist operations, where a "
-              "state is the committed overlay plus two history abstractions a cache could depend on (the last "
-              "answer given to each query; the exact order of block numbers asked), checks the property's "
+              "state is the committed overlay plus three history abstractions a cache could depend on (the last "
+              "answer given to each query; the last value written to each slot and account, kept across wipes; the exact order of block numbers asked), checks the property's "
               "clauses as invariants/action properties of the specification (pass-through while nothing is "
               "committed, queries change nothing, repetition is stable, destroyed accounts read nothing, "
               "created storage is exactly what was written, untouched entries are not written, addresses do "
@@ -165,7 +165,7 @@ def split(ctx, mname, path, classes, thin_len):
 def run(ctx, pid):
     res = vf.Result()
     res.rule = ("every (state, operation) edge of DbLayers.tla reachable within MaxHist operations (state = committed "
-                "overlay + last answer per query + order of block numbers asked + protocol conformance), replayed "
+                "overlay + last answer per query + last value written per slot/account + order of block numbers asked + protocol conformance), replayed "
                 "through every layer able to execute it; distinct = distinct (edge, layer) pairs")
     binary = vf.cargo_build("dblayers")
     only = [x for x in os.environ.get("VERIF_DBLAYERS_ONLY", "").split(",") if x]
